@@ -431,7 +431,7 @@ class SpecEval:
             "ilen": lambda L, j: len(L[j]), "item": lambda L, j, p_: L[j][p_],
             "len2": lambda L, i: len(L[i]), "ilen3": lambda L, i, a: len(L[i][a]), "item3": lambda L, i, a, b: L[i][a][b], "floor": math.floor, "fabs": abs, "INT32": 2147483647,
         }
-        for g in self.c.ghost:
+        for g in list(self.c.ghost) + list(getattr(self.c, "rtc_ghost", {}) or {}):
             ns[g] = (lambda name: (lambda *a: self.ghost(name, a)))(g)
         ns.update(env)
         if extra:
@@ -455,10 +455,13 @@ class SpecEval:
         ns["_old"] = lambda name: self.pre[name]
         return eval(code, ns)
 
+    def _gh(self):
+        return set(self.c.ghost) | set(getattr(self.c, "rtc_ghost", {}) or {})
+
     # -- ghost functions from defs
     def _parse_defs(self):
         eqs = {}
-        for d in list(self.c.defs) + list(self.c.requires):
+        for d in list(self.c.defs) + list(getattr(self.c, "rtc_defs", ())) + list(self.c.requires):
             tree = ast.parse(d.strip(), mode="eval").body
             self._collect(tree, [], eqs)
         return eqs
@@ -482,15 +485,15 @@ class SpecEval:
                     eqs.setdefault(k, []).append((lhs, rhs, gg, conds + [n.args[0]]))
             return
         if isinstance(n, ast.Call) and isinstance(n.func, ast.Name) and n.func.id == "iff" and \
-                isinstance(n.args[0], ast.Call) and isinstance(n.args[0].func, ast.Name) and n.args[0].func.id in self.c.ghost:
+                isinstance(n.args[0], ast.Call) and isinstance(n.args[0].func, ast.Name) and n.args[0].func.id in self._gh():
             eqs.setdefault(n.args[0].func.id, []).append((n.args[0], n.args[1], gens, []))
             return
         if isinstance(n, ast.Compare) and len(n.ops) == 1 and isinstance(n.ops[0], ast.Eq):
             l, r = n.left, n.comparators[0]
-            if isinstance(l, ast.Call) and isinstance(l.func, ast.Name) and l.func.id in self.c.ghost:
+            if isinstance(l, ast.Call) and isinstance(l.func, ast.Name) and l.func.id in self._gh():
                 eqs.setdefault(l.func.id, []).append((l, r, gens, []))
                 return
-            if isinstance(r, ast.Call) and isinstance(r.func, ast.Name) and r.func.id in self.c.ghost:
+            if isinstance(r, ast.Call) and isinstance(r.func, ast.Name) and r.func.id in self._gh():
                 eqs.setdefault(r.func.id, []).append((r, l, gens, []))
                 return
         # anything else in defs (bounds facts about ghosts etc.) is not a definition; ignored by the evaluator
@@ -603,7 +606,7 @@ def check_case(contract, inputs, after, result, only_frame=False):
             same = np.array_equal(before, after[pn], equal_nan=(before.dtype.kind == "f"))
             out.append((f"(frame) array parameter {pn} is not written", "holds" if same else "violated",
                         "" if same else f"{pn} before {before.tolist()} after {np.asarray(after[pn]).tolist()}"))
-    for e in ([] if only_frame else contract.ensures):
+    for e in ([] if only_frame else list(contract.ensures) + list(getattr(contract, "rtc_ensures", ()))):
         try:
             extra = {"_oldv": lambda name, cur: ev.pre[name] if name in ev.pre else cur}
             ok = ev.eval_text(e, extra)
@@ -737,7 +740,8 @@ def _rtc_worker(args):
 def run_layer(jobs, src_dir, tier="quick", seed=0, workers=10, only=None, extra=None):
     """Run-time contract check of every Cython kernel job with a postcondition.  -> list of run_rtc results"""
     from concurrent.futures import ProcessPoolExecutor
-    sel = [j for j in jobs if ((j.lang == "cy" and (j.contract.ensures or getattr(j, "only_kinds", None))) or
+    sel = [j for j in jobs if ((j.lang == "cy" and (j.contract.ensures or getattr(j.contract, "rtc_ensures", None)
+                                                     or getattr(j, "only_kinds", None))) or
                                (j.lang == "py" and (getattr(j.contract, "vectors", False) or getattr(j.contract, "rtc_py", False))
                                 and j.contract.ensures))
            and (only is None or j.tag in only)]
